@@ -118,10 +118,19 @@ def main():
             # shell demonstrations: demo.sh <tree> <target-dir>; exit 0 = property holds, 1 = violated
             sh_demo = os.path.join(d, "demo.sh")
             if os.path.exists(sh_demo):
+                # two conventions: demo.sh <tree> <target-dir>, or demo.sh <path to a built stylua binary>
+                wants_binary = bool(re.search(r"demo\.sh\s+(<path to stylua|\[path/to/stylua\])", meta.get("demo") or ""))
+
+                def run_demo():
+                    if wants_binary:
+                        sh("cargo build --offline --features verif,luau,lua54,luajit,editorconfig 2>&1 | tail -1", cwd=WT, env={"CARGO_TARGET_DIR": CT + "-demo"})
+                        return sh(["bash", sh_demo, os.path.join(CT + "-demo", "debug", "stylua")], timeout=3600, env={"CARGO_TARGET_DIR": CT + "-demo"})
+                    return sh(["bash", sh_demo, WT, CT + "-demo"], timeout=3600, env={"CARGO_TARGET_DIR": CT + "-demo"})
+
                 sh(["git", "-C", WT, "apply", os.path.join(d, "patch.diff")])
-                rc1, out1 = sh(["bash", sh_demo, WT, CT + "-demo"], timeout=3600)
+                rc1, out1 = run_demo()
                 sh(["git", "-C", WT, "apply", "-R", os.path.join(d, "patch.diff")])
-                rc0, out0 = sh(["bash", sh_demo, WT, CT + "-demo"], timeout=3600)
+                rc0, out0 = run_demo()
                 dres["demo.sh"] = {"with_change": {"passed": int(rc1 == 0), "failed": int(rc1 != 0), "exit": rc1, "tail": out1[-300:]},
                                    "without_change": {"passed": int(rc0 == 0), "failed": int(rc0 != 0), "exit": rc0, "tail": out0[-300:]}}
                 demos = demos + [sh_demo]
